@@ -916,6 +916,10 @@ func g05Net(repo string, w *Out) error {
 	if !strings.Contains(isrc, "conn, err := dial(ctx, network, address)") || strings.Count(isrc, "dial(ctx,") != 1 {
 		return fmt.Errorf("Dialer.dialContext: the single `dial(ctx, network, address)` inside the retry loop not found")
 	}
+	if !strings.Contains(isrc, "attempts := d.rt.Attempts if attempts <= 0 { attempts = 1 } for i := 0; i < attempts; i++ {") ||
+		!strings.Contains(isrc, "if err == nil { return conn, nil }") {
+		return fmt.Errorf("Dialer.dialContext: retry loop (attempts <= 0 means 1; stop at the first success) is not the shape the model transcribes")
+	}
 	w.DefBool("dialer_redirects_every_dial", true)
 
 	tf, err := Parse(repo, "http_transport.go")
